@@ -18,16 +18,107 @@ from nested_pandas.series.ext_array import NestedExtensionArray as NEA
 # --------------------------------------------------------------------------------------
 
 
+TNAME = {str(v): k for k, v in gen.TYPES.items()}
+
+
+def warm(rng, arr):
+    """read-only calls that give the object a chance to cache something"""
+    for f in rng.sample([
+        lambda: arr.list_offsets, lambda: arr.list_lengths, lambda: arr.flat_length,
+        lambda: arr.chunked_list_struct_array, lambda: arr.get_list_index(), lambda: arr.field_names,
+        lambda: pd.Series(arr).nest.to_flat(), lambda: pd.Series(arr).nest.to_lists(), lambda: arr.dtype,
+        lambda: list(arr), lambda: arr.to_numpy(), lambda: len(arr), lambda: arr.isna(),
+        lambda: arr.__arrow_array__(), lambda: arr.nbytes,
+    ], rng.randint(2, 6)):
+        try:
+            f()
+        except Exception:  # noqa: BLE001
+            pass
+
+
+def mutate_in_place(rng, arr):
+    """one VALID in-place write on the object (never malformed); returns the object to go on with"""
+    st = arr.chunked_array.type
+    schema = [(f.name, TNAME[str(f.type.value_type)]) for f in st]
+    n = len(arr)
+    lens = [0 if x is None else x for x in pa.compute.list_value_length(
+        pa.chunked_array([c.field(0) for c in arr.chunked_array.chunks])).to_pylist()]
+    lens = [0 if v is None else ln for ln, v in zip(lens, arr.chunked_array.to_pylist())]
+    kind = rng.choice(["setitem_int", "setitem_mask", "set_flat", "set_flat_new", "set_list", "fill", "pop", "copy", "pickle"])
+    if kind == "setitem_int" and n:
+        t = None if rng.random() < 0.2 else gen_table(rng, schema, n=rng.randint(0, 4))
+        arr[rng.randrange(-n, n)] = table_to_value(rng, schema, t, "dict") if t is not None else None
+    elif kind == "setitem_mask" and n:
+        m = [rng.random() < 0.4 for _ in range(n)]
+        k = sum(m)
+        if k:
+            ts = [None if rng.random() < 0.2 else gen_table(rng, schema, n=rng.randint(0, 3)) for _ in range(k)]
+            arr[np.array(m, dtype=bool)] = NEA(pa.array(ts, type=st))
+    elif kind in ("set_flat", "set_flat_new"):
+        if kind == "set_flat":
+            name, ty = rng.choice(schema)
+        else:
+            name, ty = rng.choice([x for x in ["h1", "h2", "h3"] if x not in dict(schema)] or ["h9"]), rng.choice(list(gen.TYPES))
+        if len(schema) < 4 or kind == "set_flat":
+            arr.set_flat_field(name, pa.array(values_of_type(rng, ty, sum(lens)), type=gen.TYPES[ty]))
+    elif kind == "set_list":
+        name, ty = rng.choice(schema)
+        arr.set_list_field(name, pa.array([values_of_type(rng, ty, k) for k in lens], type=pa.list_(gen.TYPES[ty])))
+    elif kind == "fill":
+        name, ty = rng.choice(schema)
+        arr.fill_field_lists(name, pa.array(values_of_type(rng, ty, n, 0.1), type=gen.TYPES[ty]))
+    elif kind == "pop" and len(schema) > 1:
+        arr.pop_fields([rng.choice(schema)[0]])
+    elif kind == "copy":
+        arr = arr.copy()
+    elif kind == "pickle":
+        arr = pickle.loads(pickle.dumps(arr))
+    return arr
+
+
+def apply_history(rng, arr, steps):
+    desc = []
+    for _ in range(steps):
+        warm(rng, arr)
+        arr = mutate_in_place(rng, arr)
+    warm(rng, arr)
+    return arr
+
+
 def mk_input(rng, max_rows=8, max_len=5, recipe=None, recipes=None, corner=None, content=None, max_fields=4):
-    """generated content x layout -> real NestedExtensionArray + its read-backs"""
+    """generated content x layout -> real NestedExtensionArray + its read-backs.
+    recipe 'history': the object has lived: reads (which may cache) interleaved with valid in-place writes,
+    copies and pickling, all on ONE object; what is handed on is that object and its current storage."""
     if content is None:
         schema, rows = gen.gen_content(rng, max_rows=max_rows, max_len=max_len, corner=corner, max_fields=max_fields)
     else:
         schema, rows = content
     recipe = recipe or rng.choice(recipes or gen.LAYOUTS)
-    ca = gen.make_layout(rng, schema, rows, recipe)
+    history = recipe == "history"
+    base_recipe = rng.choice([r for r in (recipes or gen.LAYOUTS) if r not in ("history", "missing_hidden")]) if history else recipe
+    ca = gen.make_layout(rng, schema, rows, base_recipe)
     built = attempt(lambda: NEA(ca))
+    history_failed = None
+    if history and built[0] == "ok":
+        try:
+            arr = apply_history(rng, built[1], rng.randint(1, 4))
+        except Exception as e:  # noqa: BLE001
+            # a VALID read or in-place write failed on an object that has lived: that is a verdict, not a crash
+            import traceback
+            history_failed = f"{type(e).__name__}: {e}; " + " | ".join(traceback.format_exc().splitlines()[-6:])
+            arr = built[1]
+        built = ("ok", arr)
+        ca = arr.chunked_array
+        schema = [(f.name, TNAME[str(f.type.value_type)]) for f in ca.type]
+        rows = ca.to_pylist()
+        for r in rows:
+            if r is not None:
+                for (nm, ty) in schema:
+                    if ty == "timestamp":
+                        r[nm] = [None if v is None else pd.Timestamp(v) for v in r[nm]]
     inp = {"schema": schema, "rows": rows, "recipe": recipe, "ca": ca, "built": built}
+    if history_failed:
+        inp["history_failed"] = history_failed
     if built[0] == "ok":
         arr = built[1]
         inp["arr"] = arr
@@ -40,6 +131,14 @@ def mk_input(rng, max_rows=8, max_len=5, recipe=None, recipes=None, corner=None,
     inp["P"] = cq_phys(inp["ph"])
     inp["L"] = cq_lcol(inp["lg"])
     return inp
+
+
+def history_failure_case(inp):
+    """a valid operation raised during the life of a 'history' object"""
+    return {"stream": "arrayops", "op": "history", "term": "[true; false; true; true]",
+            "input": dict(input_repr(inp), history_error=inp["history_failed"]), "impl_repr": inp["history_failed"],
+            "meta": base_meta(inp, impl_raised=True), "sig": ["history_failed"], "trivial": True,
+            "hist": {"op": "history_failed", "layout": "history"}}
 
 
 def rows_repr(rows):
@@ -66,8 +165,32 @@ def col_result(res):
     return f"(Ok {cq_lcol(lg)})", f"(Some {cq_phys(core.phys(ca))})", lg, False
 
 
+def isolated(res, sources):
+    """a result that is a NEW column must not share its object / storage binding with a source: an element
+    assignment into the result must leave every source as it was (and the result must really change)"""
+    if res[0] != "ok" or not isinstance(res[1], NEA) or len(res[1]) == 0:
+        return True
+    out = res[1]
+    before = [repr(a.chunked_array.to_pylist()) for a in sources]
+    probe = out.copy()
+    try:
+        out2 = out          # write into the result object itself
+        keep = repr(out2.chunked_array.to_pylist())
+        saved = out2.chunked_array
+        out2[0] = None if out2.chunked_array.to_pylist()[0] is not None else {f.name: [] for f in out2.chunked_array.type}
+        ok = all(repr(a.chunked_array.to_pylist()) == b for a, b in zip(sources, before))
+        # restore the result for the read-back that follows
+        out2._replace_chunked_array(saved, validate=False)
+        return ok and repr(out2.chunked_array.to_pylist()) == keep and repr(probe.chunked_array.to_pylist()) == keep
+    except Exception:  # noqa: BLE001
+        return True
+
+
 def col_case(inp, op, model_term, spec_term, res, args_repr, py_agree=True, trivial=False, extra_meta=None,
-             monitor_term="true"):
+             monitor_term="true", sources=None):
+    if sources is not None and not isolated(res, sources):
+        py_agree = False
+        args_repr = dict(args_repr, isolation="an element assignment into the result changed a source column")
     impl_term, pq, lg2, raised = col_result(res)
     term = (f"(let P := {inp['P']} in let L := {inp['L']} in "
             f"match chk_col P L ({model_term}) ({spec_term}) {impl_term} {pq} with "
@@ -154,7 +277,7 @@ def op_getitem_slice(rng, inp):
     agree = res[0] == "ok" and same_rows(lg_to_rows(core.logical(res[1].chunked_array)), expect)
     args = f"{cq_optZ(a)} {cq_optZ(b)} {cq_optZ(s)}"
     return col_case(inp, "getitem_slice", f"m_getitem_slice P {args}", f"spec_col_slice L {args}", res,
-                    {"slice": [a, b, s]}, py_agree=agree, trivial=(len(expect) == n and s in (None, 1)) or not expect)
+                    {"slice": [a, b, s]}, py_agree=agree, sources=[arr], trivial=(len(expect) == n and s in (None, 1)) or not expect)
 
 
 def op_getitem_mask(rng, inp):
@@ -171,7 +294,7 @@ def op_getitem_mask(rng, inp):
     else:
         agree = res[0] == "err"
     return col_case(inp, "getitem_mask", f"m_getitem_mask P {cq_bools(m)}", f"spec_col_mask L {cq_bools(m)}", res,
-                    {"mask": m}, py_agree=agree, trivial=all(m) or not any(m))
+                    {"mask": m}, py_agree=agree, sources=[arr], trivial=all(m) or not any(m))
 
 
 def op_getitem_idx(rng, inp):
@@ -191,7 +314,7 @@ def op_getitem_idx(rng, inp):
     except IndexError:
         agree = res[0] == "err"
     return col_case(inp, "getitem_idx", f"m_getitem_idx P {cq_Zs(ix)}", f"spec_col_idx L {cq_Zs(ix)}", res,
-                    {"indices": ix}, py_agree=agree, trivial=not ix)
+                    {"indices": ix}, py_agree=agree, sources=[arr], trivial=not ix)
 
 
 def gen_table(rng, schema, n=None, ragged=False, nan_ok=False):
@@ -254,21 +377,22 @@ def op_take(rng, inp):
     args = f"{cq_Zs(ix)} {cq_bool(allow_fill)}"
     return col_case(inp, "take", f"m_take P {args} {m_fill}", f"spec_col_take L {args} {cq_lrow(fill_lrow)}", res,
                     {"indices": ix, "allow_fill": allow_fill, "fill": fill_kind if fill_t is not None else None},
-                    trivial=not ix)
+                    trivial=not ix, sources=[arr])
 
 
 def op_concat(rng, inp):
     schema = inp["schema"]
     others = [inp]
+    all_empty = rng.random() < 0.3      # [] + rows: a concatenation is a NEW column also when only one part has rows
     for _ in range(rng.randint(1, 2)):
-        rows = gen.gen_rows(rng, schema, rng.randint(0, 4))
+        rows = gen.gen_rows(rng, schema, 0 if all_empty else rng.randint(0, 4))
         others.append(mk_input(rng, content=(schema, rows)))
     rng.shuffle(others)
     res = attempt(lambda: NEA._concat_same_type([o["arr"] for o in others]))
     ps = cq_list(o["P"] for o in others)
     ls = cq_list(o["L"] for o in others)
     c = col_case(inp, "concat", f"m_concat {ps}", f"spec_col_concat {ls}", res,
-                 {"n_arrays": len(others), "layouts": [o["recipe"] for o in others]})
+                 {"n_arrays": len(others), "layouts": [o["recipe"] for o in others]}, sources=[o["arr"] for o in others])
     return c
 
 
@@ -277,12 +401,12 @@ def op_simple(rng, inp, which=None):
     which = which or rng.choice(["copy", "dropna", "pickle"])
     if which == "copy":
         res = attempt(lambda: arr.copy())
-        return col_case(inp, "copy", "m_copy P", "Ok L", res, {})
+        return col_case(inp, "copy", "m_copy P", "Ok L", res, {}, sources=[arr])
     if which == "dropna":
         res = attempt(lambda: arr.dropna())
-        return col_case(inp, "dropna", "m_dropna P", "Ok (spec_col_dropna L)", res, {}, trivial=inp["st"]["missing"] == 0)
+        return col_case(inp, "dropna", "m_dropna P", "Ok (spec_col_dropna L)", res, {}, trivial=inp["st"]["missing"] == 0, sources=[arr])
     res = attempt(lambda: pickle.loads(pickle.dumps(arr)))
-    return col_case(inp, "pickle", "m_pickle P", "Ok L", res, {})
+    return col_case(inp, "pickle", "m_pickle P", "Ok L", res, {}, sources=[arr])
 
 
 # --------------------------------------------------------------------------------------
